@@ -7,6 +7,25 @@ def ascii_upper(s):
     return "".join(chr(ord(c) - 32) if "a" <= c <= "z" else c for c in s)
 
 
+EDIT_HISTORIES = []      # (dump before, edit log, dump after) of the SM objects built by this run: the tie of Model/Edit.lean
+
+
+def edit_history_tie(ctx, res):
+    """the editing API as modelled by Model/Edit.lean (the model behind C01Reach.reachable_in_dom) against the implementation:
+    the same edit history applied to the same starting object must give the same object"""
+    reqs, metas = [], []
+    for before, log, after in EDIT_HISTORIES:
+        if any(e[0] == "raised" for e in log): continue
+        edits = [e for e in log if e[0] != "serialize"]
+        if not objs.values_ok([(k, v) for k, v in before["props"]]): continue
+        reqs.append({"op": "edit.apply", "sf": before, "edits": edits}); metas.append((before, edits, after))
+    del EDIT_HISTORIES[:]
+    for (before, edits, after), m in zip(metas, ctx.lean.eval_sharded(reqs)):
+        res.count("edit_histories"); res.count("edit_ops", len(edits)); res.traces += 1
+        if m != after:
+            res.tie_break("edit.apply (Model/Edit.lean vs the editing API)", {"before": before, "edits": edits}, after, m)
+
+
 def make_objects(ctx, res, kind):
     """objects reachable from blank(), corpus files and the empty simfile by random edit scripts"""
     import simfile
@@ -26,8 +45,10 @@ def make_objects(ctx, res, kind):
             if len(sf.charts) > 3:
                 del sf.charts[3:]
         steps = rng.choice([0, 1, 3, 8, 20])
+        before = objs.dump(sf) if kind == "sm" else None
         log = (objs.edit_sm if kind == "sm" else objs.edit_ssc)(rng, sf, steps)
         out.append((sf, origin, log))
+        if kind == "sm": EDIT_HISTORIES.append((before, log, objs.dump(sf)))
     return out
 
 
@@ -104,6 +125,7 @@ def run(ctx):
                 "None; objects outside the property's domain (SafeDoc, non-stripped fields) are counted and skipped. "
                 "non-trivial: a value with an MSD metacharacter or None, or a chart with extradata; distinct by hash of the dump")
     objs_ = make_objects(ctx, res, "sm")
+    edit_history_tie(ctx, res)
     reqs, metas = [], []
     for sf, origin, log in objs_:
         if not in_domain_sm(sf):
